@@ -108,6 +108,47 @@ theorem rr_cycle (n : Int) (hn : 0 < n) (k : Nat) (p : Int) (hp : 0 ≤ p ∧ p 
         rw [this, Int.add_emod_right]
       · congr 1; omega
 
+theorem rrRun_length (p : Int) (ns : List Int) : (rrRun p ns).length = ns.length := by
+  induction ns generalizing p with
+  | nil => rfl
+  | cons n ns ih => simp [rrRun, ih]
+
+/-- "round-robin cycles through ALL partitions": with a fixed count n, from every reachable state, any n consecutive
+    calls return every partition 0 ≤ j < n (hence, the window having n entries, each exactly once). -/
+theorem rr_covers_all (n : Int) (hn : 0 < n) (p : Int) (hp : 0 ≤ p ∧ p ≤ n) (j : Int) (hj : 0 ≤ j ∧ j < n) :
+    ∃ i, ∃ (hi : i < (rrRun p (List.replicate n.toNat n)).length),
+      (rrRun p (List.replicate n.toNat n))[i] = j := by
+  have hm0 : 0 ≤ (j - p) % n := Int.emod_nonneg _ (by omega)
+  have hm1 : (j - p) % n < n := Int.emod_lt_of_pos _ hn
+  refine ⟨((j - p) % n).toNat, ?_, ?_⟩
+  · rw [rrRun_length, List.length_replicate]; omega
+  · rw [rr_cycle n hn n.toNat p hp]
+    have : (((j - p) % n).toNat : Int) = (j - p) % n := Int.toNat_of_nonneg hm0
+    rw [this, Int.add_emod_emod]
+    have : p + (j - p) = j := by omega
+    rw [this, Int.emod_eq_of_lt hj.1 hj.2]
+
+/-- no partition is returned twice within a window of n calls -/
+theorem rr_window_injective (n : Int) (hn : 0 < n) (p : Int) (hp : 0 ≤ p ∧ p ≤ n) (i k : Nat)
+    (hi : i < (rrRun p (List.replicate n.toNat n)).length) (hk : k < (rrRun p (List.replicate n.toNat n)).length)
+    (e : (rrRun p (List.replicate n.toNat n))[i] = (rrRun p (List.replicate n.toNat n))[k]) : i = k := by
+  rw [rr_cycle n hn n.toNat p hp, rr_cycle n hn n.toNat p hp] at e
+  rw [rrRun_length, List.length_replicate] at hi hk
+  have hi' : (i:Int) < n := by omega
+  have hk' : (k:Int) < n := by omega
+  have e2 : ((p + i) - (p + k)) % n = 0 := (Int.emod_eq_emod_iff_emod_sub_eq_zero).mp e
+  obtain ⟨c, hc⟩ := Int.dvd_of_emod_eq_zero e2
+  have hc0 : c = 0 := by
+    rcases Int.lt_trichotomy c 0 with h | h | h
+    · have : n * c ≤ n * (-1) := Int.mul_le_mul_of_nonneg_left (by omega) (by omega)
+      omega
+    · exact h
+    · have : n * 1 ≤ n * c := Int.mul_le_mul_of_nonneg_left (by omega) (by omega)
+      omega
+  subst hc0
+  omega
+example : rrRun 2 (List.replicate 3 3) = [2, 0, 1] ∧ rrRun 3 (List.replicate 3 3) = [0, 1, 2] := by decide
+
 /-- manual partitioner: identity (stated on the routing function: a manual choice `c` within range is
     looked up unchanged) -/
 theorem manual_identity (parts : List Int) (c : Int) (h0 : 0 ≤ c) (h1 : c < parts.length) :
